@@ -245,6 +245,8 @@ impl Walrus {
 
     pub(super) fn startup_chore(&self) -> std::io::Result<()> {
         // Minimal recovery: scan wal data dir, build reader chains, and rebuild trackers
+        #[cfg(walrus_verif)]
+        let _ = crate::wal::verif::io_check(crate::wal::verif::IoKind::ReadDir, &self.paths.root().to_string_lossy(), "", 0, 0);
         let dir = match fs::read_dir(self.paths.root()) {
             Ok(d) => d,
             Err(_) => return Ok(()),
